@@ -481,7 +481,21 @@ def build_c22(cfg, impl, body, xf, ef, ff, variant=0):
         # final_plan may be a generator instance or a callable: use both forms
         return bpp.finalize_wrapper(body, ff if variant % 2 == 0 else ff())
     if kind == "finalize_decorator":
-        return bpp.finalize_decorator(ff)(lambda: body)()
+        if variant % 2 == 0:
+            return bpp.finalize_decorator(ff)(lambda: body)()
+        # the decorated function is called twice: a first (silent, empty) call, then the call under test -- what the decorator
+        # creates must be created per call, not per decoration
+        calls = [0]
+
+        def ff2():
+            calls[0] += 1
+            return iter(()) if calls[0] == 1 else ff()
+        f = bpp.finalize_decorator(ff2)(lambda b: b)
+        for _ in f(iter(())):
+            pass
+        if calls[0] == 0:
+            calls[0] = 1          # (an implementation that never asked for the clean-up of the first call)
+        return f(body)
     if kind == "contingency":
         return bpp.contingency_wrapper(body, except_plan=xf if cfg["hasX"] else None, else_plan=ef if cfg["hasE"] else None,
                                        final_plan=ff if cfg["hasF"] else None, auto_raise=cfg["auto"])
